@@ -114,9 +114,7 @@ def all : List (String × Nat × E) := [
   ("global_efficiency", 0, globalEfficiency), ("outstrength", 1, strength),
   ("total_node_weight", 0, totalWeight), ("nsi_degree", 1, nsiDegree),
   ("nsi_local_clustering", 1, nsiLocalClustering), ("cross_degree", 1, crossDegree),
-  ("cross_link_density", 0, crossLinkDensity), ("total_link_distance", 1, totalLinkDistance),
-  ("average_link_distance", 1, averageLinkDistance), ("max_link_distance", 1, maxLinkDistance),
-  ("outarea_weighted_connectivity", 1, areaWeightedConnectivity)]
+  ("cross_link_density", 0, crossLinkDensity)]
 end M
 
 end Pyunicorn.Equiv
